@@ -55,6 +55,12 @@ CLAIMS = {
         'note': 'Single-call fprintf(stderr) warnings are accepted without the mutex (POSIX stdio locking). Only cli/yara.c is analysed for locksets; library code reachable from the thread is covered by C09.',
         'technique': 'static must-hold lockset analysis with caller-derived entry locksets + structural pairing checks over clang CFG facts',
     },
+    'C17': {
+        'text': 'Decides, in the compiled-rules loader: every yr_stream_read result is compared with the requested count; every file-derived value (fields of the variables filled from the stream and of the reference copied out of a loaded buffer) is compared against a trusted bound on every path before it is used as an array index, an allocation size, a pointer offset, a read count or handed to the reference->pointer conversion, and a guard that subtracts from an unsigned quantity has its own lower-bound test; the relocation list must be delimited (known finding: it is not - the format has no count/terminator); nothing leaks when a file is rejected (C16\'s ownership typestate on the loader functions). Necessary clauses of C17; semantically edited but well-formed files are not decided.',
+        'design_ref': 'DESIGN.md section 4, C17 (R17.1-R17.4)',
+        'note': 'Only yr_arena_load_stream / yr_rules_load_stream / yr_rules_load / yr_rules_from_arena are analysed. A comparison counts as a bound check only if its other side is not itself file-derived.',
+        'technique': 'static taint-to-sink path analysis (dominating bound comparisons) over clang CFG facts + ownership typestate',
+    },
     'C12': {
         'text': 'Decides, for every constant-folding grammar action, that the folder applies the same C operator and the same operand-value guards as the VM handler of the opcode the action emits; that no compiler-layer code reads a run-time object value; that externals are looked up in the scanner-owned table; and that shortcut flags are cleared on every path that uses a string otherwise. These are necessary structural clauses of C12, decided on all sites; verdict equality itself is not decided.',
         'design_ref': 'DESIGN.md section 4, C12 (R12.1-R12.6)',
